@@ -33,7 +33,7 @@ func (c *Tag) WriteHTMLTo(w io.Writer) (int64, error) {
 	for _, name := range names {
 		value := c.attributes[name]
 		if value != "" {
-			attributes += fmt.Sprintf(`%s="%s" `, name, value)
+			attributes += fmt.Sprintf(`%s="%s" `, name, escapeAttribute(value))
 		}
 	}
 
